@@ -35,6 +35,7 @@ where
       let obs_trigger = {
         let value_trigger_next = Arc::clone(&value);
         let sctl_trigger_next = sctl.clone();
+        let sctl_trigger_error = sctl.clone();
 
         sctl.new_observer(
           move |_, _| {
@@ -48,7 +49,9 @@ where
               sctl_trigger_next.sink_next(v);
             }
           },
-          |_, _| {},
+          move |_, e| {
+            sctl_trigger_error.sink_error(e);
+          },
           |_| {},
         )
       };
